@@ -391,7 +391,7 @@ pub(crate) fn c09_matches_step_28y() { widen_years(); matches_step_body(); }
 //@ mem: 10
 //@ unwindset: binary_search_by=12; ^memcmp#0=70; encode_to|to_hex|hex=70; KeepOptions.*matches=11; matches_step_masked=11
 //@ kernel: as c09_matches_step
-//@ bound: as c09_matches_step (one call of KeepOptions::matches, civil times in 2014..=2021, symbolic has_last / has_next), with the symbolic counters restricted per instance, the other counters unset: _a = keep-last, minutely, hourly, daily; _b = weekly, monthly; _c = quarter-yearly, half-yearly, yearly; _d = keep-last + symbolic keep-ids.  The instances run in parallel; the harness with all nine counters symbolic at once (c09_matches_step, 12 min) is in the thorough tier
+//@ bound: as c09_matches_step (one call of KeepOptions::matches, civil times in 2014..=2021, symbolic has_last / has_next), with the symbolic counters restricted per instance, the other counters unset: _a = keep-last, minutely, hourly, daily; _b = weekly, monthly; _c = quarter-yearly, half-yearly, yearly; _d = keep-last + symbolic keep-ids (keep-last and keep-ids do not look at the times: both civil times concrete, 2020-03-01 00:00 and 2020-02-29 23:59).  The instances run in parallel; the harness with all nine counters symbolic at once (c09_matches_step, 12 min) is in the thorough tier
 //@ oracle: as c09_matches_step
 //@ stub: jiff accessors -> symbolic civil table (as c09_period_predicates); Backtrace::capture
 //@ assume: jiff's accessors agree with the calendar
@@ -408,7 +408,7 @@ pub(crate) fn c09_matches_step_28y() { widen_years(); matches_step_body(); }
 #[kani::stub(jiff::Zoned::iso_week_date, st_iso_week_date)]
 #[kani::stub(jiff::civil::ISOWeekDate::year, st_iso_year)]
 #[kani::stub(jiff::civil::ISOWeekDate::week, st_iso_week)]
-pub(crate) fn c09_matches_step_a() { matches_step_masked(0x00f, false); }
+pub(crate) fn c09_matches_step_a() { matches_step_masked(0x00f, false, false); }
 #[kani::proof]
 #[kani::unwind(5)]
 #[kani::stub(std::backtrace::Backtrace::capture, crate::error::verif_harness::stub_backtrace_capture)]
@@ -420,7 +420,7 @@ pub(crate) fn c09_matches_step_a() { matches_step_masked(0x00f, false); }
 #[kani::stub(jiff::Zoned::iso_week_date, st_iso_week_date)]
 #[kani::stub(jiff::civil::ISOWeekDate::year, st_iso_year)]
 #[kani::stub(jiff::civil::ISOWeekDate::week, st_iso_week)]
-pub(crate) fn c09_matches_step_d() { matches_step_masked(0x001, true); }
+pub(crate) fn c09_matches_step_d() { matches_step_masked(0x001, true, true); }
 #[kani::proof]
 #[kani::unwind(5)]
 #[kani::stub(std::backtrace::Backtrace::capture, crate::error::verif_harness::stub_backtrace_capture)]
@@ -432,7 +432,7 @@ pub(crate) fn c09_matches_step_d() { matches_step_masked(0x001, true); }
 #[kani::stub(jiff::Zoned::iso_week_date, st_iso_week_date)]
 #[kani::stub(jiff::civil::ISOWeekDate::year, st_iso_year)]
 #[kani::stub(jiff::civil::ISOWeekDate::week, st_iso_week)]
-pub(crate) fn c09_matches_step_b() { matches_step_masked(0x030, false); }
+pub(crate) fn c09_matches_step_b() { matches_step_masked(0x030, false, false); }
 #[kani::proof]
 #[kani::unwind(5)]
 #[kani::stub(std::backtrace::Backtrace::capture, crate::error::verif_harness::stub_backtrace_capture)]
@@ -444,15 +444,16 @@ pub(crate) fn c09_matches_step_b() { matches_step_masked(0x030, false); }
 #[kani::stub(jiff::Zoned::iso_week_date, st_iso_week_date)]
 #[kani::stub(jiff::civil::ISOWeekDate::year, st_iso_year)]
 #[kani::stub(jiff::civil::ISOWeekDate::week, st_iso_week)]
-pub(crate) fn c09_matches_step_c() { matches_step_masked(0x1c0, false); }
+pub(crate) fn c09_matches_step_c() { matches_step_masked(0x1c0, false, false); }
 
-fn matches_step_body() { matches_step_masked(0x1ff, true); }
+fn matches_step_body() { matches_step_masked(0x1ff, true, false); }
 
 /// `mask`: which of the nine counters (keep-last, minutely, hourly, daily, weekly, monthly, quarter-yearly, half-yearly,
 /// yearly = bits 0..8) are symbolic; the others are unset.  `ids`: whether keep-ids is symbolic (else empty).
-fn matches_step_masked(mask: u16, ids: bool) {
-    let c_new = any_civ();
-    let c_sn = any_civ();
+fn matches_step_masked(mask: u16, ids: bool, fixed_times: bool) {
+    // fixed_times: both civil times concrete (instances whose symbolic counters do not look at the times)
+    let c_new = if fixed_times { Civ { y: 2020, mo: 3, d: 1, h: 0, mi: 0, doy: 61, wy: 2020, w: 9 } } else { any_civ() };
+    let c_sn = if fixed_times { Civ { y: 2020, mo: 2, d: 29, h: 23, mi: 59, doy: 60, wy: 2020, w: 9 } } else { any_civ() };
     store(0, &c_new);
     store(1, &c_sn);
     kani::assume(civ_key(&c_new) >= civ_key(&c_sn));
